@@ -533,11 +533,11 @@ def gen_throttle():
     Definition throttled (throttle : option Z) (running : Z) : bool :=
       match throttle with None => false | Some t => %s end.
     (* the whole loop under the executor lock: pops from the left while not throttled, counting each job *)
-    Fixpoint admit (throttle : option Z) (running : Z) (queue : list nat) : list nat * list nat * Z :=
+    Fixpoint admission (throttle : option Z) (running : Z) (queue : list nat) : list nat * list nat * Z :=
       match queue with
       | [] => ([], [], running)
       | j :: r => if throttled throttle running then ([], queue, running)
-                  else let '(adm, rest, run') := admit throttle (running + 1)%%Z r in (j :: adm, rest, run')
+                  else let '(adm, rest, run') := admission throttle (running + 1)%%Z r in (j :: adm, rest, run')
       end.""") % cmp_t)
     ret = body[-1]
     if ast.unparse(ret) != N("return (executor._event, 30.0 if executor._running_count.value else 2.0)"):
